@@ -494,7 +494,7 @@ def jobs(tier):
 
 
 BOUNDS = {
-    "quick": "(also with asyncio.CancelledError as the thrown exception while asyncio loop accessors raise and source closes suspend; and with sources whose aclose() returns a truthy value) every source pull, async callable, lock acquire/release and context manager suspends once; Cancel(BaseException) thrown at symbolic suspension k=1..K (K covers every suspension of the execution); N<=2 items per source, S<=3; sources async generators / class-based with aclose; groupby with async key (1..3 advances, 0..2 group items); tee with lock (other child ahead by 0..2), lru_cache (maxsize None/1/2, 0..2 earlier entries), cached_property with and without lock, ExitStack with 2 context managers + callback + pushed exit, scoped_iter (plain and nested)",
+    "quick": "(also with asyncio.CancelledError as the thrown exception while asyncio loop accessors raise and source closes suspend; and with sources whose aclose() returns a truthy value) every source pull, async callable, lock acquire/release and context manager suspends once; Cancel(BaseException) thrown at symbolic suspension k=1..K (K covers every suspension of the execution); N<=2 items per source, S<=3; sources async generators / class-based with aclose; groupby with async key (1..3 advances, 0..2 group items; the owner then closes the iterator it was advancing - the group or the groupby); tee with lock (other child ahead by 0..2), lru_cache (maxsize None/1/2, 0..2 earlier entries), cached_property with and without lock, ExitStack with 2 context managers + callback + pushed exit, scoped_iter (plain and nested)",
     "thorough": "N<=3",
 }
 OUTSIDE = ["more than one cancellation", "cancellation while the owner's own aclose() is running", "lengths above the bound"]
